@@ -25,7 +25,7 @@ SetX0(x) == /\ pc = x.pc /\ dir = x.dir /\ idx = x.idx /\ rd = x.rd /\ wr = x.wr
 
 \* structural well-formedness is decided BEFORE execution; an ill-formed tree is not executed
 StructOK(c) == 
-  /\ \A j \in 1..Len(c.nodes) : c.nodes[j].kind \in {"S", "T", "C"}
+  /\ \A j \in 1..Len(c.nodes) : c.nodes[j].kind \in {"S", "T", "P", "C"}
   /\ WellFormed(c.world, c.nodes)
 
 TInit ==
@@ -61,6 +61,25 @@ CapT == \A m \in DOMAIN W.level :
 \* a Toll is never the outermost holder of a tensor
 TollT == \A j \in 1..(Len(nodes)-1) : IsToll(W, nodes[j]) => ParentHolder(nodes, j, nodes[j].t) # 0
 
+\* ---- spatial fanout and loop-bound constraints (world fields fanout, lbs; absent = none)
+SpatialLoops(comp, dim) == {j \in 1..(Len(nodes)-1) : nodes[j].kind = "P" /\ nodes[j].mem = comp /\ nodes[j].dim = dim}
+RECURSIVE ProdIters(_)
+ProdIters(S) == IF S = {} THEN 1 ELSE LET j == CHOOSE y \in S : TRUE IN Iters(W, nodes, j) * ProdIters(S \ {j})
+HasSpatial == "fanout" \in DOMAIN W
+FanoutT == HasSpatial =>
+  \A f \in {W.fanout[k] : k \in 1..Len(W.fanout)} : ProdIters(SpatialLoops(f.comp, f.dim)) <= f.n
+Cmp(op, a, b) == CASE op = "==" -> a = b [] op = "<=" -> a <= b [] op = ">=" -> a >= b
+                   [] op = "<" -> a < b [] op = ">" -> a > b
+\* a constraint speaks about the spatial loops of its dimension over the rank variables it names; it is
+\* decided on the loops that exist (a rank variable without such a loop is not judged: the documentation
+\* leaves open whether an absent loop counts as a bound of 1)
+LbOK(c) ==
+  LET L == {j \in SpatialLoops(c.comp, c.dim) : \E k \in 1..Len(c.vars) : c.vars[k] = nodes[j].rv}
+  IN IF c.product
+     THEN L = {} \/ Cmp(c.op, ProdIters(L), c.value)
+     ELSE \A j \in L : Cmp(c.op, Iters(W, nodes, j), c.value)
+BoundsT == ("lbs" \in DOMAIN W) => \A k \in 1..Len(W.lbs) : LbOK(W.lbs[k])
+
 ReqEq(a, b) == a[1] * b[2] = b[1] * a[2]
 
 Verdict ==
@@ -69,6 +88,7 @@ Verdict ==
       e == TotalEnergy(W, tab, macs)
       l == TotalLatency(W, tab, macs)
   IN [id |-> c.id, wellformed |-> TRUE, once |-> OnceT, keep |-> KeepT, may |-> MayT, cap |-> CapT, toll |-> TollT,
+      fanout |-> FanoutT, bounds |-> BoundsT,
       energy |-> e, latency |-> l,
       join_energy_ok |-> ReqEq(c.join.energy, e), join_latency_ok |-> ReqEq(c.join.latency, l),
       model_energy_ok |-> ReqEq(c.model.energy, e), model_latency_ok |-> ReqEq(c.model.latency, l),
